@@ -437,7 +437,8 @@ func RunC09(tier string, args []string) int {
 			chk.Violation("C09|panic|"+stripAt(fault)+"|"+be(disk), fmt.Sprintf("lookup panicked under storage fault %s (%s probe, %s): %s", fault, which, be(disk), v.Panic), map[string]interface{}{"fault": fault, "disk": disk, "listed": probeListed})
 			return
 		}
-		if v.Err != "" && again.Panic == "" && again.Err == "" && !again.Revoked {
+		// (a transient fault is gone by the time of the second lookup: nothing to demand of that one)
+		if v.Err != "" && again.Panic == "" && again.Err == "" && !again.Revoked && !strings.Contains(fault, "only-at-read#") {
 			chk.Violation("C09|fault-answered-not-revoked-on-second-lookup|"+stripAt(fault)+"|"+be(disk),
 				fmt.Sprintf("storage fault %s (%s backend): the first lookup of the %s certificate reported the error, the next one - fault still present - answered 'not revoked'", fault, be(disk), which),
 				map[string]interface{}{"fault": fault, "disk": disk, "listed": probeListed})
@@ -488,6 +489,25 @@ func RunC09(tier string, args []string) int {
 								if kind == "ldb.get" && strings.Contains(arg, idA) {
 									c09Hit = true
 									return ioe.err
+								}
+								return nil
+							}
+							return func() { vsched.EffectHook = nil }
+						}, listedProbe, extras)
+					}
+					// a transient fault: exactly the k-th read of this database during the lookup fails, every other one
+					// succeeds (a lookup which reads twice must not let the second read make up for the first)
+					for k := 1; k <= 3; k++ {
+						k := k
+						run(disk, fmt.Sprintf("get-io-error-only-at-read#%d", k), func(w *CW) func() {
+							reads := 0
+							vsched.EffectHook = func(kind, arg string) error {
+								if kind == "ldb.get" && strings.Contains(arg, idA) {
+									reads++
+									if reads == k {
+										c09Hit = true
+										return errors.New("injected: input/output error (transient)")
+									}
 								}
 								return nil
 							}
